@@ -145,6 +145,9 @@ def observe(conv, u, v):
     return ("coerced", repr(r))
 
 
+SPILLABLE = None
+
+
 def make_converter(rng, s_members):
     conv = (Converter if rng.random() < 0.7 else BaseConverter)(detailed_validation=rng.random() < 0.5)
     # tagged hooks for everything the strategy may hand the value to
@@ -152,6 +155,8 @@ def make_converter(rng, s_members):
         # class registrations take precedence over the born-with hooks of str/int/float/bytes
         conv.register_structure_hook(t, lambda val, _t, t=t: Spill(frozenset([t])))
     spillable = {SA, SB, NTA, NTint, NTstr, bytes, float, str, int, bool, NoneType}
+    global SPILLABLE
+    SPILLABLE = spillable
     conv.register_structure_hook_func(
         lambda x: getattr(x, "__origin__", None) is Union and all(a in spillable for a in x.__args__),
         lambda val, t: Spill(frozenset(t.__args__)))
@@ -168,12 +173,18 @@ def check_c15(v: Verdict, t1_summary, n_unions):
             "with_newtypes": 0, "lookalike_probes": 0, "f6_hits": 0}
     sub_tbl = [(CID[a], CID[c]) for a in CLASSES for c in CLASSES if issubclass(a, c)]
     sub_coq = "(fun a c => existsb (fun p => N.eqb (fst p) a && N.eqb (snd p) c) [" + "; ".join(f"({a}%N, {c}%N)" for a, c in sub_tbl) + "])"
-    while hist["unions"] < n_unions:
-        u = gen_union(rng)
+    # systematic first: both spellings of every two-member union with None (Optional[X] is documented as left to the default hook --
+    # whatever the position of None), then random unions
+    fixed = []
+    for x in [str, int, bool, float, bytes, SA] + list(NEWTYPES)[:2] + [Literal[1, "a"]]:
+        fixed += [Union[None, x], Union[x, None]]
+    while hist["unions"] < n_unions + len(fixed):
+        from_fixed = hist["unions"] < len(fixed)
+        u = fixed[hist["unions"]] if from_fixed else gen_union(rng)
         if u is None:
             continue
         s_members = rng.sample(CLASSES[:6], rng.randint(2, 6))
-        if rng.random() < 0.3:
+        if rng.random() < 0.3 or from_fixed:
             s_members = [str, bool, int, float, NoneType]          # the preconfigured JSON converters' set
         if rng.random() < 0.2 and IntSub not in s_members:
             s_members.append(IntSub)
@@ -206,6 +217,16 @@ def check_c15(v: Verdict, t1_summary, n_unions):
                                     {"lane": "PASS/C15", "union": repr(u), "configured": [c.__name__ for c in s_members], "value": repr(val),
                                      "observed": repr(obs), "documented": "('pass',)", "hook": getattr(hook, "__qualname__", repr(hook))})
                         break
+        if not want_applies and applies and all(a in SPILLABLE for a in args):
+            # the strategy claimed a union it is documented to leave alone (a plain Optional, in either spelling): every value must
+            # still reach the hook that handles the union without the strategy (here: the tagging hook registered for such unions)
+            for val in PROBES:
+                obs = observe(conv, u, val)
+                if obs != ("delegate", frozenset(args)):
+                    v.violation("union passthrough handles a union it is documented to leave to the default hooks (a plain Optional): the outcome differs from the converter's own hook for it",
+                                {"lane": "PASS/C15", "union": repr(u), "members_in_order": [repr(a) for a in args], "configured": [c.__name__ for c in s_members], "value": repr(val),
+                                 "observed": repr(obs), "documented": repr(("delegate", frozenset(args)))})
+                    break
         if not applies:
             continue
         # all rotations and a few random permutations of the members
